@@ -193,11 +193,11 @@ def move_staticmethod_static_scope(source: str, preserve: Collection[str]) -> st
     if len(name_replacements) != len(set(name_replacements.values())):
         return
 
+    # The references are only right if the functions move, and the other way around: all or nothing
     transaction = 0
     for before, after in replacements.items():
         yield before, after, transaction
 
-    transaction = 1
     for classdef in parsing.iter_classdefs(root):
         for funcdef in parsing.iter_funcdefs(classdef):
             new_name = name_replacements.get((classdef.name, funcdef.name))
@@ -221,8 +221,6 @@ def move_staticmethod_static_scope(source: str, preserve: Collection[str]) -> st
             )
             yield funcdef, None, transaction
             yield None, funcdef_static, transaction
-
-            transaction += 1
 
 
 @processing.fix
